@@ -48,6 +48,9 @@ func genCheckCase(r *rand.Rand, idx int64, forceOpts *genOpts) *checkCase {
 	if forceOpts == nil && idx%3 == 1 {
 		return genDenseCase(r, idx)
 	}
+	if forceOpts == nil && idx%12 == 5 {
+		return genTwinCase(r, idx)
+	}
 	o := v.o
 	if forceOpts != nil {
 		o = *forceOpts
@@ -104,12 +107,16 @@ func genDenseCase(r *rand.Rand, idx int64) *checkCase {
 		pd.Rewrite = e
 		doc.Rels = append(doc.Rels, pd)
 	}
-	box := &NSDef{Name: "Box", Rels: []*RelDef{{Name: "r", Types: []TypeRef{{NS: "Doc", Rel: permNames[0]}, {NS: "User"}}}}}
+	box := &NSDef{Name: "Box", Rels: []*RelDef{{Name: "r", Types: []TypeRef{{NS: "Doc", Rel: permNames[0]}, {NS: "User"}, {NS: "Group", Rel: "members"}}}}}
 	cfg.NS = append(cfg.NS, box)
 	cc.Cfg = cfg
 	users := []string{"u0", "u1", "u2"}
 	groups := []string{"g0", "g1", "g2"}
 	docs := []string{"d0", "d1"}
+	if idx%4 >= 2 {
+		// the same object names in every namespace: different objects, one UUID each
+		groups, docs = []string{"o0", "o1", "o2"}, []string{"o0", "o1"}
+	}
 	var ts []*Tup
 	n := 4 + r.IntN(14)
 	for i := 0; i < n; i++ {
@@ -132,6 +139,17 @@ func genDenseCase(r *rand.Rand, idx int64) *checkCase {
 			ts = append(ts, tupSet("Box", "x", "r", "Doc", d, permNames[0]))
 		}
 	}
+	if idx%2 == 1 {
+		// the wrapper relation also holds plain groups next to permission subject
+		// sets, and some relationships are stored directly ON a permission (granting
+		// in the default mode, ignored in strict mode)
+		for k, n := 0, 1+r.IntN(2); k < n; k++ {
+			ts = append(ts, tupSet("Box", "x", "r", "Group", pickS(r, groups), "members"))
+		}
+		for k, n := 0, 1+r.IntN(2); k < n; k++ {
+			ts = append(ts, tupID("Doc", pickS(r, docs), permNames[r.IntN(nP)], pickS(r, users)))
+		}
+	}
 	cc.tuples = ts
 	for i := 0; i < 6; i++ {
 		u := pickS(r, users)
@@ -140,6 +158,84 @@ func genDenseCase(r *rand.Rand, idx int64) *checkCase {
 		} else {
 			cc.queries = append(cc.queries, tupID("Doc", pickS(r, docs), permNames[r.IntN(nP)], u))
 		}
+	}
+	cc.Tuples = tupStrings(cc.tuples)
+	cc.Queries = tupStrings(cc.queries)
+	return cc
+}
+
+// genTwinCase: two or three namespaces with the SAME relation and permission
+// names (viewers, banned, parents, access, view), chained through `parents`, and
+// objects with the SAME names in all of them - the situation of a Folder
+// "readme" containing a Doc "readme". Everything inside keto that identifies a
+// node by less than (namespace, object, relation) is wrong here. The permissions
+// put the same-named permission of the next namespace below && / ! / || in
+// varying positions.
+func genTwinCase(r *rand.Rand, idx int64) *checkCase {
+	cc := &checkCase{Variant: "twin"}
+	names := []string{"Folder", "Doc", "Org"}[:2+r.IntN(2)]
+	cfg := &Cfg{NS: []*NSDef{{Name: "User"}}}
+	csr := func(rel string, perm bool) *Expr { return &Expr{Op: "csr", Rel: rel, ViaPermits: perm} }
+	not := func(e *Expr) *Expr { return &Expr{Op: "not", Kids: []*Expr{e}} }
+	nary := func(op string, ks ...*Expr) *Expr { return &Expr{Op: op, Kids: ks} }
+	for i, name := range names {
+		n := &NSDef{Name: name, Rels: []*RelDef{
+			{Name: "viewers", Types: []TypeRef{{NS: "User"}}},
+			{Name: "banned", Types: []TypeRef{{NS: "User"}}},
+		}}
+		var access *Expr
+		if i+1 < len(names) {
+			n.Rels = append(n.Rels, &RelDef{Name: "parents", Types: []TypeRef{{NS: names[i+1]}}})
+			access = &Expr{Op: "ttu", Rel: "parents", Comp: []string{"view", "access"}[r.IntN(2)], ViaPermits: true}
+			if r.IntN(2) == 0 {
+				access = nary("or", access, csr("viewers", false))
+			}
+		} else {
+			access = csr("viewers", false)
+		}
+		var view *Expr
+		switch r.IntN(5) {
+		case 0:
+			view = nary("and", not(csr("banned", false)), csr("access", true))
+		case 1:
+			view = nary("and", csr("access", true), not(csr("banned", false)))
+		case 2:
+			view = not(nary("or", csr("banned", false), not(csr("access", true))))
+		case 3:
+			view = nary("or", nary("and", csr("viewers", false), csr("access", true)), nary("and", not(csr("banned", false)), csr("access", true)))
+		default:
+			view = nary("and", nary("or", csr("viewers", false), csr("access", true)), not(csr("banned", false)))
+		}
+		n.Rels = append(n.Rels, &RelDef{Name: "access", Perm: true, Rewrite: access}, &RelDef{Name: "view", Perm: true, Rewrite: view})
+		cfg.NS = append(cfg.NS, n)
+	}
+	cc.Cfg = cfg
+	objs := []string{"readme", "notes", "misc"}
+	users := []string{"alice", "bob", "mallory"}
+	var ts []*Tup
+	for i, name := range names {
+		for _, o := range objs {
+			for _, u := range users {
+				if r.IntN(3) == 0 {
+					ts = append(ts, tupID(name, o, "viewers", u))
+				}
+				if r.IntN(6) == 0 {
+					ts = append(ts, tupID(name, o, "banned", u))
+				}
+			}
+			if i+1 < len(names) {
+				// mostly the parent of the same name
+				po := o
+				if r.IntN(3) == 0 {
+					po = pickS(r, objs)
+				}
+				ts = append(ts, tupSet(name, o, "parents", names[i+1], po, ""))
+			}
+		}
+	}
+	cc.tuples = ts
+	for i := 0; i < 8; i++ {
+		cc.queries = append(cc.queries, tupID(names[r.IntN(len(names)-1)], pickS(r, objs), []string{"view", "view", "access"}[r.IntN(3)], pickS(r, users)))
 	}
 	cc.Tuples = tupStrings(cc.tuples)
 	cc.Queries = tupStrings(cc.queries)
